@@ -204,7 +204,15 @@ inline std::string gen_name(Ctx &c, const NameRule &r, std::vector<std::string> 
     int ch = 0;
     switch (c.weighted({10, 3, 3, 2, 2})) {
       case 1: if (r.flags & (first ? NumStart : NumCont)) ch = '0' + (int)c.pick(10); break;
-      case 2: if (r.flags & Special) { ch = special[c.pick(sizeof special - 1)]; if (!name_char_ok(*r.f, ch)) ch = 0; } break;
+      case 2:
+        if (r.flags & Special) {
+          ch = special[c.pick(sizeof special - 1)];
+          if (!name_char_ok(*r.f, ch)) ch = 0;
+          // '.' is permitted by the Special name flag as well, but mpt_parse_config refuses it (it is the separator of the
+          // text path it builds): open finding C09-name-with-path-separator. No extra draw, so older cases keep their meaning.
+          else if (ch == ':' && (i & 1) && !c.exclude("C09-name-with-path-separator")) ch = '.';
+        }
+        break;
       case 3: if ((r.flags & Space) && r.inner_space && !first && !last && !(r.second_plain && i == 1)) ch = c.flip() ? ' ' : '\t'; break;
       case 4:
         if (r.flags & Binary) {
